@@ -31,14 +31,24 @@ def main() -> int:
     print("lake build", " ".join(targets))
     ok, log = C.lake_build(targets, timeout=7200)
     print("\n".join(log.splitlines()[-15:]))
-    if ok:
-        return 0
     rc = 0
-    for t in targets:  # find out which ones are broken, build the rest
+    if not ok:
+        for t in targets:  # find out which ones are broken, build the rest
+            ok, log = C.lake_build([t], timeout=7200)
+            if not ok:
+                rc = 1
+                print(f"FAILED target {t}:\n" + "\n".join(log.splitlines()[-30:]))
+    # EXTRA_MODULES (cross-property compositions such as the capstone): built here too so that the checks find them
+    # compiled, but a failure is reported and does NOT fail the setup (check.py records it as a note)
+    extras = []
+    for pid in sorted(entries):
+        P = importlib.import_module(f"props.{pid}")
+        for t in list(getattr(P, "EXTRA_MODULES", [])):
+            if t not in extras and t not in targets:
+                extras.append(t)
+    for t in extras:
         ok, log = C.lake_build([t], timeout=7200)
-        if not ok:
-            rc = 1
-            print(f"FAILED target {t}:\n" + "\n".join(log.splitlines()[-30:]))
+        print(f"extra module {t}: " + ("built" if ok else "DOES NOT BUILD (note only)\n" + "\n".join(log.splitlines()[-15:])))
     return rc
 
 
